@@ -138,8 +138,29 @@ def check_all():
     return bad, stats
 
 
+# The module the calling code lives in is part of the input: stackscope recognises its own frames by module name, and
+# a caller's module may be called anything (also something that merely starts with the same letters).
+MODNAMES = [None, "stackscope_helpers", "stackscopic.inner", "my.stackscope", "stackscope_tests_support"]
+_CLONES = {}
+
+
+def clone(name):
+    """this very module loaded a second time under another __name__ (its functions' frames then belong to it)"""
+    mod = _CLONES.get(name)
+    if mod is None:
+        import importlib.util
+        spec = importlib.util.spec_from_file_location(name, __file__)
+        mod = importlib.util.module_from_spec(spec)
+        spec.loader.exec_module(mod)
+        _CLONES[name] = mod
+    return mod
+
+
 def run_plan(req):
     plan = req["plan"]
+    if plan[:1] == "~":
+        name = MODNAMES[int(plan[1])]
+        return clone(name).run_plan(dict(req, plan=plan[2:]))
     if ("G" in plan or "D" in plan) and greenlet is None:
         return {"skipped": "no greenlet"}
     del SH[:]
